@@ -40,3 +40,6 @@ int g_doer_kind, g_doer_ret; const struct json_t *g_doer_which; const void *g_do
 
 /* jwks_process unit: sequence records for the arbitrary position g_seq_k */
 unsigned g_p1_calls, g_add_calls, g_seq_k; const struct json_t *g_p1_arg_k; const struct jwk_item *g_p1_ret_k, *g_add_item_k;
+
+/* loader units: the jwks_process call */
+unsigned g_pr_calls; const struct jwk_set *g_pr_set; const struct json_t *g_pr_json;
